@@ -359,6 +359,17 @@ func replayC12(r *Run, c Case) {
 	fmt.Printf("replay %s %q: object nil=%v err=%s\n", c.Kind, clip(s, 200), o.IsNil(), lib.ErrClass(err))
 	if err != nil {
 		sweep(w, recv, c, "the decoder object left behind by a failed decode", invalidByFields(recv))
+		if !c.NilRcv {
+			// a second Decode on the used decoder: no panic, pair shape
+			decodeShape(w, k, s, false, recv, true)
+			valid := "CVSS:3.1/AV:N/AC:L/PR:N/UI:N/S:U/C:H/I:H/A:H"
+			if k.V2() {
+				valid = "AV:N/AC:L/Au:N/C:P/I:P/A:P"
+			}
+			r2 := lib.New(k)
+			lib.DecodeOn(r2, s)
+			decodeShape(w, k, valid, false, r2, true)
+		}
 		return
 	}
 	// successful decode: replay the reset sweep for every field
